@@ -4,7 +4,7 @@ from hypothesis import strategies as st
 from ..runner import Shard, Violation
 from ..tools import AGG_TOOLS
 from ..gen import base_case, features
-from ..core import expect_return, run_async, run_sync, consumer_view, first_diff
+from ..core import expect_return, run_async, run_sync, consumer_view, first_diff, generators_closed_by_tool
 from ..values import sig, mat, mats
 
 PROPERTY = "C02"
@@ -34,7 +34,7 @@ def cases(draw, name, max_len):
     case = draw(base_case(name, max_len=max_len))
     for src in case["srcs"]:
         src["fl"] = draw(st.sampled_from(["list", "iter", "agen", "list", "iter", "agen", "tuple", "tuplesub", "seq",
-                                           "reiter", "areiter", "aproxy"]))
+                                           "reiter", "areiter", "aproxy", "sgen", "sgen"]))
     for spec in case["fns"].values():
         spec["fl"] = draw(st.sampled_from(["def", "async", "def", "async", "eqobj", "unhashobj", "aeqobj"]))
     return case
@@ -46,7 +46,7 @@ def cases_large(draw, name):
     case = draw(base_case(name, max_len=30, min_len=12))
     for src in case["srcs"]:
         src["fl"] = draw(st.sampled_from(["list", "iter", "agen", "list", "iter", "agen", "tuple", "tuplesub", "seq",
-                                           "reiter", "areiter", "aproxy"]))
+                                           "reiter", "areiter", "aproxy", "sgen", "sgen"]))
     for spec in case["fns"].values():
         spec["fl"] = draw(st.sampled_from(["def", "async", "def", "async", "eqobj", "unhashobj", "aeqobj"]))
     return case
@@ -87,6 +87,9 @@ def check(case):
         if tool == "sum" and kind == "wrong-result" and case.get("profile") == "inexact":
             kind = "inexact-float-sum-differs"
         raise Violation(f"C02/{tool}/{kind}", f"async={x} stdlib={y}")
+    shut = generators_closed_by_tool(ba)
+    if shut:
+        raise Violation(f"C02/{tool}/closed-the-callers-generator", f"{shut}: the builtin only advances it")
     # mutation oracle
     v = (case.get("params") or {}).get("v") or {}
     for name, vdesc in v.items():
